@@ -905,3 +905,55 @@ pub fn set_bit_twice<Z: ZNum>(c: &Ctx<Z>) -> Expect<Z> {
     }
     is(Obs::V(from_pat_bytes(c, &bytes)))
 }
+
+// =============================== C04 / C17: typed shift amounts ===========================
+thread_local! {
+    static CAND: std::cell::RefCell<(u32, Vec<crate::sets::Amt>)> = std::cell::RefCell::new((0, Vec::new()));
+}
+pub fn shift_candidate(bits: u32, idx: u64) -> crate::sets::Amt {
+    CAND.with(|c| {
+        let mut c = c.borrow_mut();
+        if c.0 != bits {
+            *c = (bits, crate::sets::shift_candidates(bits));
+        }
+        c.1[idx as usize]
+    })
+}
+/// `x << rhs` / `x >> rhs` for rhs of a primitive integer type; aux = index of the amount in
+/// `shift_candidates(BITS)`.  Debug builds: panic iff the amount is negative or >= BITS.
+/// Release builds: the shift by `(rhs as u32)`, wrapped like the u32 operator.
+fn typed_shift<Z: ZNum>(c: &Ctx<Z>, left: bool) -> Expect<Z> {
+    let amt = shift_candidate(c.ti.bits, c.aux);
+    let in_range = !amt.neg && amt.mag < c.bits() as u128;
+    let mut c2 = Ctx::new(c.ti, c.r, if in_range { amt.mag as u64 } else { amt.low32() as u64 }, c.debug);
+    if in_range {
+        c2.debug = false;
+        return if left { shl(&c2) } else { shr(&c2) };
+    }
+    if c.debug {
+        return is(Obs::Panic);
+    }
+    if left {
+        shl(&c2)
+    } else {
+        shr(&c2)
+    }
+}
+pub fn shl_typed<Z: ZNum>(c: &Ctx<Z>) -> Expect<Z> {
+    typed_shift(c, true)
+}
+pub fn shr_typed<Z: ZNum>(c: &Ctx<Z>) -> Expect<Z> {
+    typed_shift(c, false)
+}
+/// never panics, whatever it returns
+pub fn no_panic<Z: ZNum>(_c: &Ctx<Z>) -> Expect<Z> {
+    Expect::NoPanic
+}
+/// panics exactly for a zero divisor (wrapping_/overflowing_/saturating_ div and rem forms)
+pub fn panic_iff_zero_divisor<Z: ZNum>(c: &Ctx<Z>) -> Expect<Z> {
+    if c.b().is_zero() {
+        is(Obs::Panic)
+    } else {
+        Expect::NoPanic
+    }
+}
